@@ -11,7 +11,7 @@ from .. import env, coq, runner
 
 LEVEL = 'other'
 META = dict(
-    text='Proof part: Coq theorems over an executable model of CirqEncoder/ObjectHook (values and JSON documents as finite trees, memo keyed by equality): decode(encode v) = v for every finite value with any sharing, VAL keys dense, one VAL per distinct by-key object, every REF met after its VAL is complete; value equality via canonical forms implies equal hashes (PeriodicValue, @value_equality); Qid._cmp_tuple is a strict total order and the order the qubit classes implement is total, consistent with equality and transitive for the registered class table (checked by vm_compute on every run); measurement keys written into documents as their joined string (Codec/KeyPath.v): parse(str k) = k with every path entry kept apart for keys of any nesting depth, str(parse s) = s for every string, string equality = structural equality on the domain, refuted outside it (a path entry containing the separator). the memo as a Python dict (Codec/MemoHash.v: entries found by hash, then ==) writes the reference document and round-trips for EVERY hash function, however many distinct by-key objects share one hash, whereas a memo keyed by hash(o) alone is refuted (two circuits on the qubits -1/-2 of a line, CPython hash(-1) = hash(-2)); equal mappings (dict equality: ParamResolver, ProductState) have equal hashes when the hash reads the items as a set, an equality that identifies a key written as a name with the key written as a symbol next to a hash of the items as written is refuted, so is a hash that reads the items in insertion order. The model is compared with the implementation on every run (full JSON text of generated nestings of by-key/plain objects, decoder results incl. malformed and legacy documents, VAL/REF key sequences of real FrozenCircuit nestings, qubit comparisons and sorted(), MeasurementKey str/parse_serialized and the key field of MeasurementGate documents on a fixed grid of keys 0..4 scopes deep plus random ones). Exploration part (deciding for the per-class half): every class registered in the resolver caches of cirq, cirq_google, cirq_ionq, cirq_aqt, cirq_pasqal is instantiated from its stored examples and from generated mutants of its constructor arguments, alone and nested in lists/dicts/circuits with shared sub-circuits, and checked for JSON round trip (== and hash), repr evaluation, behaviour (unitary, keys, str), the key OBJECTS carried (path entries, name, order - not only the joined strings), pickle/copy/deepcopy incl. a second process with another hash seed (every value hashed before it is pickled; every qid of the pool, also qids made of string-hashed qids, alone and inside operations/moments/frozen circuits/circuit operations; operations and circuits with their qubits renamed to string-hashed ones); keys 0..4 scopes deep through every entry point that puts a key into a document (measurements, Pauli measurements, conditions, classical controls, scoped and repeated sub-circuits unrolled, data stores) must come back with the same path, order and rescoping behaviour from JSON, pickle and deepcopy; every stored .json/.json_inward reads to the value of its paired .repr; the id()-keyed encoder cache is stressed and audited. HASH COLLISIONS (every seed alike): pools of small FrozenCircuits (qubits at negative and large coordinates, repetitions of either sign) and of generic by-key objects are hashed, every pair of DISTINCT members with EQUAL hash() is put into one document in six positions (list, dict, circuit of sub-circuit operations, repeated, nested one level up) and must read back as itself (model: full text / VAL-REF sequence); every operation of the class stream is also moved onto two different qubits left of the origin and the two sub-circuits written into one document. SPELLINGS: equal values have equal hashes across different ways of writing the same value, with no assumption on which spellings are equal (== symmetric, != its negation, == True => same hash, one set element, found as dict key): a fixed grid of parameter assignments (keys as str or sympy.Symbol, items in both orders, whole numbers as int or float) through 19 entry points (ParamResolver, CircuitOperation param_resolver / with_params, Moment / FrozenCircuit / Circuit / tagged carriers, sweeps, ResultDict, QuantumExecutable), every stored example and explored instance against its respellings (alone and inside Moment / FrozenCircuit / CircuitOperation / tagged operation), all pairs of the instances of one class; JSON / pickle / deepcopy of every respelling. COUPLED FIELDS (every seed alike): every field holding a sequence of small positive integers (qid shapes, control shapes, masks) and every omitted constructor argument of that type is set to each member of a fixed grid of shapes (one to four entries; all qubits, single and mixed qudits; products that are / are not a power of two), and the companion fields the constructor ties to it (a count of qubits, sequences of the old length, matrices / vectors of the old width) are re-fitted when the lone change is rejected; Coq model Codec/OptField.v of a field the writer may omit and the reader fills in (round trip for every value <=> every omission is undone by the fill-in; shape next to a matrix width: always written / omitted when equal to the inferred shape round-trip, omitted whenever inferable is refuted by a single qudit of dimension 4; shape next to a count of qubits), tied to MatrixGate / IdentityGate / MeasurementGate / WaitGate documents by vm_compute.',
+    text='Proof part: Coq theorems over an executable model of CirqEncoder/ObjectHook (values and JSON documents as finite trees, memo keyed by equality): decode(encode v) = v for every finite value with any sharing, VAL keys dense, one VAL per distinct by-key object, every REF met after its VAL is complete; value equality via canonical forms implies equal hashes (PeriodicValue, @value_equality); Qid._cmp_tuple is a strict total order and the order the qubit classes implement is total, consistent with equality and transitive for the registered class table (checked by vm_compute on every run); measurement keys written into documents as their joined string (Codec/KeyPath.v): parse(str k) = k with every path entry kept apart for keys of any nesting depth, str(parse s) = s for every string, string equality = structural equality on the domain, refuted outside it (a path entry containing the separator). the memo as a Python dict (Codec/MemoHash.v: entries found by hash, then ==) writes the reference document and round-trips for EVERY hash function, however many distinct by-key objects share one hash, whereas a memo keyed by hash(o) alone is refuted (two circuits on the qubits -1/-2 of a line, CPython hash(-1) = hash(-2)); equal mappings (dict equality: ParamResolver, ProductState) have equal hashes when the hash reads the items as a set, an equality that identifies a key written as a name with the key written as a symbol next to a hash of the items as written is refuted, so is a hash that reads the items in insertion order. The model is compared with the implementation on every run (full JSON text of generated nestings of by-key/plain objects, decoder results incl. malformed and legacy documents, VAL/REF key sequences of real FrozenCircuit nestings, qubit comparisons and sorted(), MeasurementKey str/parse_serialized and the key field of MeasurementGate documents on a fixed grid of keys 0..4 scopes deep plus random ones). Exploration part (deciding for the per-class half): every class registered in the resolver caches of cirq, cirq_google, cirq_ionq, cirq_aqt, cirq_pasqal is instantiated from its stored examples and from generated mutants of its constructor arguments, alone and nested in lists/dicts/circuits with shared sub-circuits, and checked for JSON round trip (== and hash), repr evaluation, behaviour (unitary, keys, str), the key OBJECTS carried (path entries, name, order - not only the joined strings), pickle/copy/deepcopy incl. a second process with another hash seed (every value hashed before it is pickled; every qid of the pool, also qids made of string-hashed qids, alone and inside operations/moments/frozen circuits/circuit operations; operations and circuits with their qubits renamed to string-hashed ones); keys 0..4 scopes deep through every entry point that puts a key into a document (measurements, Pauli measurements, conditions, classical controls, scoped and repeated sub-circuits unrolled, data stores) must come back with the same path, order and rescoping behaviour from JSON, pickle and deepcopy; every stored .json/.json_inward reads to the value of its paired .repr; the id()-keyed encoder cache is stressed and audited. HASH COLLISIONS (every seed alike): pools of small FrozenCircuits (qubits at negative and large coordinates, repetitions of either sign) and of generic by-key objects are hashed, every pair of DISTINCT members with EQUAL hash() is put into one document in six positions (list, dict, circuit of sub-circuit operations, repeated, nested one level up) and must read back as itself (model: full text / VAL-REF sequence); every operation of the class stream is also moved onto two different qubits left of the origin and the two sub-circuits written into one document. SPELLINGS: equal values have equal hashes across different ways of writing the same value, with no assumption on which spellings are equal (== symmetric, != its negation, == True => same hash, one set element, found as dict key): a fixed grid of parameter assignments (keys as str or sympy.Symbol, items in both orders, whole numbers as int or float) through 19 entry points (ParamResolver, CircuitOperation param_resolver / with_params, Moment / FrozenCircuit / Circuit / tagged carriers, sweeps, ResultDict, QuantumExecutable), every stored example and explored instance against its respellings (alone and inside Moment / FrozenCircuit / CircuitOperation / tagged operation), all pairs of the instances of one class; JSON / pickle / deepcopy of every respelling. COUPLED FIELDS (every seed alike): every field holding a sequence of small positive integers (qid shapes, control shapes, masks) and every omitted constructor argument of that type is set to each member of a fixed grid of shapes (one to four entries; all qubits, single and mixed qudits; products that are / are not a power of two), and the companion fields the constructor ties to it (a count of qubits, sequences of the old length, matrices / vectors of the old width) are re-fitted when the lone change is rejected; Coq model Codec/OptField.v of a field the writer may omit and the reader fills in (round trip for every value <=> every omission is undone by the fill-in; shape next to a matrix width: always written / omitted when equal to the inferred shape round-trip, omitted whenever inferable is refuted by a single qudit of dimension 4; shape next to a count of qubits), tied to MatrixGate / IdentityGate / MeasurementGate / WaitGate documents by vm_compute. CANONICAL FORMS (every seed alike): every real-number field of the first stored example of every class goes through a fixed grid of numbers inside and outside the ranges a class may regard as canonical (negative, above 1, above a period, the boundaries 0 / 1 / 2 / -1), pairs of such fields through a smaller grid squared; mutants that compare EQUAL to their source (another spelling of one ==-class) are kept, and the value read back is judged by behaviour, not only by ==: matrix or Kraus operators, keys, parameters, shape and the public attributes named like the fields of the document. Coq model Codec/CanonForm.v of a class whose == is coarser than its behaviour (a writer that puts a representative of the ==-class down preserves an observation for every value <=> the representative behaves alike; PhasedXZGate._canonical transcribed over dyadic exponents: lands in its ranges, fixes them, is idempotent, so a document of the canonical exponents keeps == and is exact for exponents already canonical, and is refuted for behaviour by x_exponent = -1/2 through the phase of the determinant), tied to cirq.PhasedXZGate by vm_compute on a grid of 588 gates (which gates == identifies, det cirq.unitary, the exponents found in the document).',
     note='Not covered by proof: the ~210 per-class _json_dict_/_from_json_dict_ pairs (Python object construction) — explored only, on stored examples and generated mutants; classes with stored examples only, and skipped ones, are listed in the evidence. Trusted: Coq kernel; the Python adapters in vf/checks/c11.py (building Cirq objects from abstract trees, printing Gallina terms); json/pickle/copy of CPython. The model identifies sharing with equality (as CirqEncoder._memo does) and does not model object identity, so the id()-keyed CirqEncoder._cache is explored (audit + stress), not proved. Theorems are closed under the global context.',
     technique='Rocq/Coq proof over an executable Gallina model of the codec core + vm_compute correspondence; typed mutation-based exploration of the registered class population',
 )
@@ -758,7 +758,10 @@ def run(ctx):
                 '5-6 document shapes; non-trivial = >= 2 VAL. SPELLINGS (every seed alike for the grid and the stored examples): families of values written in '
                 'different spellings; non-trivial = at least one pair of the family compares equal (coverage.spellings). COUPLED FIELDS (every seed alike): each sequence-of-small-integers '
                 'field of the first stored examples of every class through SHAPE_GRID with companion fields re-fitted (coverage.classes.shape_grid, * = re-fitted), and the '
-                'optional_shapes stream: 7 gate entry points x the grid x gate / operation / circuit; non-trivial = a shape that is not all qubits.')
+                'optional_shapes stream: 7 gate entry points x the grid x gate / operation / circuit; non-trivial = a shape that is not all qubits. '
+                'CANONICAL FORMS (every seed alike): each real-number field of the first stored example of every class through NUMBER_GRID, pairs through NUMBER_PAIR_GRID^2 '
+                '(coverage.classes.number_grid; mutants equal to their source are kept; json / hash / repr / behaviour in the quick tier, all checks in the thorough tier), and the canonical_forms '
+                'stream: 588 PhasedXZGates over dyadic exponents; non-trivial = exponents outside the canonical ranges.')
     ctx.assumptions += ['vf/checks/c11.py adapters: abstract tree -> Cirq objects / Gallina terms, JSON text -> Gallina json',
                         'CPython json/pickle/copy, numpy/pandas/sympy equality as used by cirq._compat.proper_eq',
                         'sharing is identified with equality (CirqEncoder._memo is keyed by ==/hash); object identity (the id()-keyed _cache) is explored, not modelled']
@@ -789,6 +792,7 @@ def run(ctx):
     timed('id_cache', stream_id_cache, ctx, mods, pop, ex.instances)
     timed('keys', stream_keys, ctx, mods)
     timed('optional_shapes', stream_optional_shapes, ctx, mods)
+    timed('canonical_forms', stream_canonical_forms, ctx, mods)
     timed('spellings', stream_spellings, ctx, mods, pop, ex)
     timed('xproc_extras', xproc_extras, ctx, mods, pop, ex)
     timed('xproc', stream_xproc, ctx, mods, ex)
@@ -1040,6 +1044,15 @@ CROSS_QID_DENYLIST = {
 # that coincide / do not coincide with what a companion field (a count, the width of a matrix) would imply by itself.
 SHAPE_GRID = ((2,), (3,), (4,), (5,), (8,), (2, 2), (2, 3), (3, 2), (2, 4), (4, 2), (3, 3), (4, 4),
               (2, 2, 2), (2, 3, 2), (2, 2, 4), (3, 3, 3), (2, 2, 2, 2))
+
+
+# Real numbers tried, for every seed alike, in every real-number field of the first stored example of every class: inside and outside
+# the ranges a class may regard as canonical (negative, above 1, above one period), on the boundaries (0, 1, 2, -1), half-way points.
+# Constructors that reject a value (a probability of 1.5) drop it.  Pairs of fields go through the smaller grid squared, so that a
+# boundary value of one field meets a non-zero value of another.
+NUMBER_GRID = (0.0, 0.5, 1.0, 1.5, 2.0, 2.5, 3.0, 4.0, 0.125, -0.25, -0.5, -1.0, -1.5, -2.0)
+NUMBER_PAIR_GRID = (-0.5, 0.0, 1.0, 1.5)
+LIGHT_CHECKS = ('json', 'hash', 'repr', 'behaviour')
 
 
 def shape_grid(quick):
@@ -1380,6 +1393,51 @@ class Mutator:
                     break
         return out
 
+    def number_fields(self, cls, d):
+        """fields of the document holding a real number: floats, and ints where the constructor's annotation says float / TParamVal"""
+        anns = self.annotations(cls)
+        return [k for k, v in d.items() if (cls.__name__, k) not in MUTATION_DENYLIST and not isinstance(v, bool)
+                and (isinstance(v, float) or (isinstance(v, int) and NUMISH.search(anns.get(k) or '')))]
+
+    def number_mutants(self, x, grid=None, pair_grid=None):
+        """The same for every seed: each real-number field of x set to every member of NUMBER_GRID (one field at a time), then every
+        PAIR of such fields through NUMBER_PAIR_GRID x NUMBER_PAIR_GRID.  Unlike `mutants`, a mutant that compares EQUAL to x is kept:
+        another spelling of the same ==-class (an exponent a period further, a negated angle with a shifted axis, ...) is exactly the
+        value whose document may only be judged by behaviour.  Returns [(mutant, info)]."""
+        cls = type(x)
+        try:
+            with time_limit(5):
+                d = self.view(x)
+                if not isinstance(d, dict) or not _safe_eq(self.build(cls, d), x):
+                    return []
+        except Exception:      # noqa
+            return []
+        ks = self.number_fields(cls, d)
+        grid = NUMBER_GRID if grid is None else grid
+        pair_grid = NUMBER_PAIR_GRID if pair_grid is None else pair_grid
+        changes = [{k: v} for k in ks for v in grid]
+        changes += [{k1: v1, k2: v2} for i, k1 in enumerate(ks) for k2 in ks[i + 1:] for v1 in pair_grid for v2 in pair_grid]
+        out, texts = [], {repr(x)}
+        for ch in changes:
+            if all(type(d[k]) is type(v) and d[k] == v for k, v in ch.items()):
+                continue
+            try:
+                with time_limit(5), warnings.catch_warnings():
+                    warnings.simplefilter('ignore')
+                    m = self.build(cls, d, ch)
+                    if m is None or type(m) is not cls or not _safe_eq(m, m):
+                        continue
+                    same = _safe_eq(m, x)
+                    key = repr(m)
+            except Exception:      # noqa   constructor rejected the value (a probability above 1, ...)
+                continue
+            if key in texts:
+                continue
+            texts.add(key)
+            out.append((m, dict(field='+'.join(ch), value=', '.join(repr(v) for v in ch.values()), ctor_only=False, number_grid=True,
+                                equal_to_source=bool(same))))
+        return out
+
     def mutants(self, x, keep, tries, depth=0):
         from cirq._compat import proper_eq
         cls = type(x)
@@ -1477,6 +1535,8 @@ class Explorer:
         self.unhashable_in_frozen = set()
         self.xproc = []          # (label, pickle bytes, json text)
         self.instances = []
+        import sympy
+        self._sympy = sympy
 
     # -- individual checks; each returns None (ok / not applicable) or a failure text
     def c_json(self, x):
@@ -1540,6 +1600,21 @@ class Explorer:
             shape = out.get('shape')
             if isinstance(shape, tuple) and shape and int(np.prod(shape)) <= 32:
                 attempt('unitary', lambda: (lambda u: None if u is None else np.round(u, 9).tolist())(cirq.unitary(x, None)))
+                if out.get('unitary') is None:
+                    attempt('kraus', lambda: (lambda ks: None if ks is None else [np.round(k, 9).tolist() for k in ks])(cirq.kraus(x, None)))
+        # the arguments the value was made from, as far as it shows them: public attributes named like the fields of its document
+        # (plain numbers, strings and symbolic expressions only)
+        try:
+            names = [k for k in x._json_dict_() if k != 'cirq_type' and isinstance(k, str) and not k.startswith('_')]
+        except Exception:      # noqa
+            names = []
+        for k in names:
+            try:
+                v = getattr(x, k)
+            except Exception:      # noqa
+                continue
+            if isinstance(v, (bool, int, float, complex, str, self._sympy.Basic)):
+                out['attribute ' + k] = v
         return out
 
     def c_behaviour(self, x):
@@ -1559,9 +1634,15 @@ class Explorer:
         a, b = self._behaviour(x), self._behaviour(self._y)
         for k in a:
             va, vb = a[k], b.get(k)
-            if k == 'unitary' and va is not None and vb is not None and not isinstance(va, str) and not isinstance(vb, str):
-                if not np.allclose(np.array(va), np.array(vb), atol=1e-8):
-                    return f'cirq.unitary differs after the round trip'
+            if k in ('unitary', 'kraus') and va is not None and vb is not None and not isinstance(va, str) and not isinstance(vb, str):
+                ua, ub = np.array(va), np.array(vb)
+                if ua.shape != ub.shape or not np.allclose(ua, ub, atol=1e-8):
+                    delta = f'max |delta| = {np.abs(ua - ub).max():.3g}' if ua.shape == ub.shape else f'shapes {ua.shape} vs {ub.shape}'
+                    same = ' although the two compare equal' if _safe_eq(self._y, x) else ''
+                    return (f'cirq.{k} differs after the round trip ({delta}, not merely rounding){same}: written {_short_repr(x)}, '
+                            f'read back {_short_repr(self._y)}{difference_hint(self.cirq, x, self._y, attributes=True)}')
+            elif isinstance(va, float) and isinstance(vb, float) and va != va and vb != vb:
+                continue
             elif va != vb:
                 if k == 'str':       # str is not pinned by the property (set order, dtype spelling): recorded, not deciding
                     self.str_differs.add(type(x).__name__)
@@ -1665,8 +1746,8 @@ class Explorer:
                 return 'the id()-keyed encoder cache changed the document'
         return None
 
-    def check(self, name, x, origin, info=None):
-        """all checks on one instance; returns list of (check, detail)"""
+    def check(self, name, x, origin, info=None, only=None):
+        """all checks (or those named in `only`) on one instance; returns list of (check, detail)"""
         fails = []
         self._y, self._text, self._json_ok = None, None, False
         label = f'{name}:{origin}'
@@ -1674,6 +1755,8 @@ class Explorer:
                        ('behaviour', lambda: self.c_behaviour(x)), ('pickle', lambda: self.c_pickle(x, label)),
                        ('copy', lambda: self.c_copy(x, False)), ('deepcopy', lambda: self.c_copy(x, True)),
                        ('nested', lambda: self.c_nested(x))):
+            if only is not None and chk not in only:
+                continue
             try:
                 with time_limit(20), warnings.catch_warnings():
                     warnings.simplefilter('ignore')
@@ -1685,14 +1768,21 @@ class Explorer:
                 r = f'{type(e).__name__}: {e}'[:300]
             if r is not None:
                 fails.append((chk, r))
-        if self._json_ok and not any(c == 'nested' for c, _ in fails):
+        if self._json_ok and only is None and not any(c == 'nested' for c, _ in fails):
             self.instances.append(x)      # material for the id-cache stress stream
         return fails
 
 
-def difference_hint(cirq, x, y):
+def difference_hint(cirq, x, y, attributes=False):
     """where a value and what was read back from its document differ (for the message only; the verdict is ==)"""
     out = []
+    if attributes:
+        try:
+            ks = [k for k in x._json_dict_() if k != 'cirq_type' and hasattr(x, k) and hasattr(y, k) and not _safe_eq(getattr(x, k), getattr(y, k))]
+            if ks:
+                out.append('attributes that differ: ' + ', '.join(f'{k} {getattr(x, k)!r} -> {getattr(y, k)!r}' for k in ks[:4]))
+        except Exception:      # noqa
+            pass
     try:
         sx, sy = cirq.qid_shape(x, None), cirq.qid_shape(y, None)
         if sx != sy:
@@ -1784,7 +1874,8 @@ def stream_classes(ctx, mods, specs, pop):
     ex = Explorer(ctx, mods, pop)
     custom = custom_instances(mods, pop)
     table = dict(classes=0, factories=0, with_mutants=[], stored_only=[], skipped=[], gaps=[], custom=[],
-                 factories_without_document=[], mutants=0, instances=0, shape_grid={}, shape_grid_mutants=0)
+                 factories_without_document=[], mutants=0, instances=0, shape_grid={}, shape_grid_mutants=0,
+                 number_grid={}, number_grid_mutants=0, number_grid_equal_to_source=0)
     grid = shape_grid(quick)
     fail_by_sig = {}
     for e in pop.entries:
@@ -1831,13 +1922,28 @@ def stream_classes(ctx, mods, specs, pop):
         if reached:
             table['shape_grid'][label] = {k: sorted(set(v)) for k, v in reached.items()}
             table['shape_grid_mutants'] += sum(len(v) for v in reached.values())
+        # fixed grid (every seed alike): each real-number field through NUMBER_GRID, pairs of them through NUMBER_PAIR_GRID^2; mutants
+        # that compare equal to their source (other spellings of one ==-class) are kept
+        ngrid = collections.Counter()
+        for x, origin in list(insts)[:1 if quick else 2]:
+            if hasattr(x, '_json_dict_'):
+                for m, info in mut.number_mutants(x):
+                    mutated.append((m, f'{origin}~{info["field"]}={info["value"]}', info))
+                    nmut += 1
+                    ngrid[info['field']] += 1
+                    table['number_grid_equal_to_source'] += info['equal_to_source']
+        if ngrid:
+            table['number_grid'][label] = dict(ngrid)
+            table['number_grid_mutants'] += sum(ngrid.values())
         table['mutants'] += nmut
         (table['with_mutants'] if nmut else table['stored_only']).append(label)
         base_fail = set()       # checks that already fail on a stored example of this class: not re-reported for its mutants
+        pending = {}
         for x, origin, *rest in [(a, b) for a, b in insts] + mutated:
             info = rest[0] if rest else None
             table['instances'] += 1
-            fails = ex.check(name, x, origin, info)
+            light = quick and info is not None and info.get('number_grid')
+            fails = ex.check(name, x, origin, info, only=LIGHT_CHECKS if light else None)
             try:
                 key = label + '|' + repr(x)[:300]
             except Exception:      # noqa
@@ -1859,9 +1965,18 @@ def stream_classes(ctx, mods, specs, pop):
                     if chk in base_fail:
                         continue
                     sig = f'class:{label}:{chk}:{info["field"]}'
-                if sig not in fail_by_sig:
+                if info is not None and info.get('number_grid'):
+                    pending.setdefault(sig, []).append((x, origin, detail, chk))      # the most telling member of the grid is reported
+                elif sig not in fail_by_sig:
                     fail_by_sig[sig] = (x, origin, detail)
                     ctx.violation(sig, f'{label} ({origin}) {chk}: {detail}'[:700], _replay_of(cirq, label, x, chk, origin))
+        for sig, cands in pending.items():
+            if sig not in fail_by_sig:
+                # a changed matrix / channel tells more than a changed attribute
+                x, origin, detail, chk = min(cands, key=lambda c: 0 if c[2].startswith(('cirq.unitary', 'cirq.kraus')) else 1)
+                fail_by_sig[sig] = (x, origin, detail)
+                ctx.violation(sig, f'{label} ({origin}) {chk}: {detail} [{len(cands)} members of the number grid fail this way]'[:900],
+                              _replay_of(cirq, label, x, chk, origin))
     table['repr_needs_unqualified_names'] = sorted(ex.repr_lenient_classes)
     table['str_differs_after_roundtrip_not_deciding'] = sorted(ex.str_differs)
     table['unhashable_gates_break_frozen_circuit_json'] = sorted(ex.unhashable_in_frozen)
@@ -2655,6 +2770,101 @@ def stream_optional_shapes(ctx, mods):
     except Exception as e:      # noqa
         stats['witness_document_without_the_field'] = f'rejected by the reader ({type(e).__name__})'
     ctx.cov['optional_shapes'] = dict(stats)
+
+
+# ------------------------------------------------------------------------------------------------ canonical forms
+CASES_HEADER_CANON = ('From Coq Require Import ZArith List Bool.\nFrom VF Require Import Base.Harness Codec.CanonForm.\n'
+                      'Import ListNotations.\nLocal Open Scope Z_scope.\n')
+CANON_D = 8            # exponents of the grid are multiples of 1/8 (axis phases of 1/16): exact in binary floating point
+CANON_X = (-2.0, -1.5, -1.0, -0.5, -0.25, 0.0, 0.125, 0.5, 1.0, 1.5, 2.0, 2.5)
+CANON_Z = (-1.5, -1.0, -0.5, 0.0, 0.25, 1.0, 1.5)
+CANON_A = (-1.25, -1.0, 0.0, 0.125, 0.75, 1.0, 2.5)
+
+
+def stream_canonical_forms(ctx, mods):
+    """cirq.PhasedXZGate (== through `_canonical`, coarser than the matrix) on a fixed grid of dyadic exponents inside and outside
+    the canonical ranges.  Property (deciding, judged on the values): the gate read back from its document has the exponents and
+    the matrix of the gate written.  Correspondence with Codec/CanonForm.v: which gates of the grid cirq's == identifies
+    (pxz_same), the phase of det cirq.unitary(g) (pxz_det_phase), and the exponents found in the document (pxz_write_stored)."""
+    cirq = mods['cirq']
+    import numpy as np
+    D = CANON_D
+    gates, rows = [], []
+    stats = collections.Counter()
+    for x in CANON_X:
+        for z in CANON_Z:
+            for a in CANON_A:
+                gates.append((x, z, a, cirq.PhasedXZGate(x_exponent=x, z_exponent=z, axis_phase_exponent=a)))
+    units = lambda x, z, a: (int(round(x * D)), int(round(z * D)), int(round(a * 2 * D)))      # noqa
+    reps = {}
+    for i, (x, z, a, g) in enumerate(gates):
+        # first gate of the grid that cirq's == identifies with this one (hash buckets only narrow the search: equal => equal hash
+        # is judged by the spellings stream)
+        rep = next((j for j in range(i) if gates[j][3] == g), i)
+        reps[i] = rep
+        u = cirq.unitary(g)
+        det = int(round(float(np.angle(np.linalg.det(u))) / np.pi * D)) % (2 * D)
+        text = cirq.to_json(g)
+        doc = json.loads(text)
+        try:
+            wrote = units(doc['x_exponent'], doc['z_exponent'], doc['axis_phase_exponent'])
+        except Exception:      # noqa
+            wrote = None
+        y = cirq.read_json(json_text=text)
+        canonical = 0 <= x <= 1 and -1 < z <= 1 and -1 < a <= 1 and (x != 0 or a == 0) and (x != 1 or z == 0)
+        stats['in_canonical_ranges' if canonical else 'outside_canonical_ranges'] += 1
+        stats['equal_to_an_earlier_gate'] += rep != i
+        ctx.count('canonical_forms', f'PhasedXZGate|{x}|{z}|{a}', not canonical, sample=dict(x_exponent=x, z_exponent=z, axis_phase_exponent=a))
+        rows.append((units(x, z, a), rep, det, wrote))
+        # the property itself, on the values
+        bad = []
+        got = (getattr(y, 'x_exponent', None), getattr(y, 'z_exponent', None), getattr(y, 'axis_phase_exponent', None))
+        if type(y) is not type(g) or got != (x, z, a):
+            bad.append(f'exponents (x, z, axis phase) = {(x, z, a)} are read back as {got}')
+        v = cirq.unitary(y, None)
+        if v is None or not np.allclose(u, v, atol=1e-8):
+            bad.append('cirq.unitary differs' + ('' if v is None else f' (max |delta| = {np.abs(u - v).max():.3g})'))
+            q0, q1 = cirq.LineQubit.range(2)
+            c1, c2 = (cirq.Circuit(cirq.H(q0), h.on(q1).controlled_by(q0)) for h in (g, y))
+            if not cirq.equal_up_to_global_phase(cirq.unitary(c1), cirq.unitary(c2), atol=1e-8):
+                bad.append('the controlled gate in a circuit differs even up to global phase')
+        if not (_safe_eq(y, g) and _safe_eq(g, y)):
+            bad.append('the gate read back is not == the one written')
+        elif bad:
+            bad.append('although the two compare equal')
+        if bad and stats['violations'] < 3:
+            stats['violations'] += 1
+            ctx.violation('canonform:PhasedXZGate:' + ('exponents' if 'exponents' in bad[0] else 'behaviour'),
+                          f'read_json(to_json(g)) for g = {g!r}: ' + '; '.join(bad) + f'; the document holds {({k: doc.get(k) for k in ("x_exponent", "z_exponent", "axis_phase_exponent")})}',
+                          dict(kind='class', cls='cirq.protocols/PhasedXZGate', check='behaviour', origin='canonical_forms', repr=repr(g),
+                               json_text=json.dumps(dict(cirq_type='PhasedXZGate', x_exponent=x, z_exponent=z, axis_phase_exponent=a))))
+    g3 = lambda t: '(%d, %d, %d)' % t      # noqa
+    text = CASES_HEADER_CANON
+    text += 'Definition gs : list pxz := [\n' + ';\n'.join(g3(r[0]) for r in rows) + '].\n'
+    text += ('Fixpoint first_same (g : pxz) (l : list pxz) (n : nat) : nat := match l with [] => n | h :: t => '
+             f'if pxz_same {D} h g then n else first_same g t (S n) end.\n')
+    text += 'Definition cases : list (pxz * nat * Z * pxz) := [\n' + ';\n'.join(
+        f'({g3(u)}, {rep}%nat, {det}, {g3(w if w is not None else (99999, 99999, 99999))})' for u, rep, det, w in rows) + '].\n'
+    text += 'Eval vm_compute in failing (fun c => match c with (g, rep, det, w) => Nat.eqb (first_same g gs 0) rep end) cases.\n'
+    text += f'Eval vm_compute in failing (fun c => match c with (g, rep, det, w) => pxz_det_phase {D} g =? det end) cases.\n'
+    text += f'Eval vm_compute in failing (fun c => match c with (g, rep, det, w) => pxz_eqb (pxz_write_stored {D} g) w end) cases.\n'
+    text += (f'Eval vm_compute in failing (fun c => match c with (g, rep, det, w) => pxz_det_phase {D} (pxz_write_canon {D} g) =? pxz_det_phase {D} g end) cases.\n')
+    vals = coq.parse_evals(coq.coq_eval(f'c11_canon_{ctx.seed}', text))
+    assert len(vals) == 4, vals
+    show = lambda i: 'PhasedXZGate(x_exponent=%r, z_exponent=%r, axis_phase_exponent=%r)' % gates[i][:3]      # noqa
+    for idx in coq.parse_nat_list(vals[0])[:5]:
+        ctx.mark_broken('correspondence:canonical_forms', f'{show(idx)} == {show(reps[idx])} is the first equality cirq finds in the grid; '
+                        'the model of _canonical identifies it with another gate first (or none)')
+    for idx in coq.parse_nat_list(vals[1])[:5]:
+        ctx.mark_broken('correspondence:canonical_forms', f'det cirq.unitary({show(idx)}) has phase {rows[idx][2]}/{D} pi; the model says (x + z) mod 2')
+    for idx in coq.parse_nat_list(vals[2])[:5]:
+        ctx.mark_broken('correspondence:canonical_forms', f'the document of {show(idx)} holds the exponents {rows[idx][3]} (units of 1/{D}, 1/{D}, 1/{2 * D}); '
+                        'the model writer puts the stored exponents down')
+    told = coq.parse_nat_list(vals[3])
+    stats['grid_cases_on_which_the_canonical_writer_changes_the_matrix'] = len(told)
+    if not told:
+        ctx.mark_broken('harness:canonical_forms', 'no gate of the grid tells the canonical writer (C11_pxz_canonical_writer_behaviour_refuted) from the stored one')
+    ctx.cov['canonical_forms'] = dict(stats)
 
 
 # ------------------------------------------------------------------------------------------------ Qid ordering
